@@ -11,6 +11,7 @@ import (
 	"fmt"
 	"strings"
 	"sync"
+	"sync/atomic"
 	"time"
 
 	xmpp "gosrc.io/xmpp"
@@ -70,8 +71,18 @@ func runKeepaliveRe(in *c18In, attempt int) (Sx, *c18Obs) {
 		return setupErr("listen: " + err.Error())
 	}
 	defer srv.stop()
+	addr := srv.addr()
+	var relay *kaRelay
+	if in.Variant == "closewait" {
+		// a TCP path that can go silent and be reset from the middle
+		if relay, err = newKaRelay(addr); err != nil {
+			return setupErr("relay: " + err.Error())
+		}
+		defer relay.close()
+		addr = relay.ln.Addr().String()
+	}
 	cfg := &xmpp.Config{
-		TransportConfiguration: xmpp.TransportConfiguration{Address: srv.addr(), Domain: srvDomain, ConnectTimeout: 1},
+		TransportConfiguration: xmpp.TransportConfiguration{Address: addr, Domain: srvDomain, ConnectTimeout: 1},
 		Jid:                    "user@" + srvDomain, Credential: xmpp.Password("secret"), Insecure: true,
 		ConnectTimeout: 1, KeepaliveInterval: iv,
 	}
@@ -195,6 +206,7 @@ func runKeepaliveRe(in *c18In, attempt int) (Sx, *c18Obs) {
 		time.Sleep(5 * time.Millisecond) // the client reads the stream error, its receiver enters Close (1 s)
 	}
 	releaseLate := func() {}
+	var closeEntered time.Time
 	if in.Variant == "serrmgr" {
 		// the session ends by a stream error; the handler above reconnects before it returns
 		srv.push(srvConn[0], sItem{T: "serr", Cond: "system-shutdown"}.xml())
@@ -222,7 +234,26 @@ func runKeepaliveRe(in *c18In, attempt int) (Sx, *c18Obs) {
 				ro.GateMissed = true
 			}
 		}
-		srv.drop(srvConn[0])
+		if in.Variant == "closewait" {
+			// the peer goes silent; the next keep-alive cannot be written; the loop answers with Close, which
+			// writes the closing tag and waits (ConnectTimeout, 1 s) for an answer that cannot come
+			relay.freeze()
+			n0 := len(rec.snapshot())
+			atomic.StoreInt32(&tr.failPing, 1)
+			for dl := time.Now().Add(3*iv + time.Second); time.Now().Before(dl); time.Sleep(iv / 10) {
+				evs := rec.snapshot()
+				if len(evs) > n0 && evs[len(evs)-1].code == kaClose {
+					break
+				}
+			}
+			closeEntered = time.Now()
+			time.Sleep(30 * time.Millisecond)
+			// ... meanwhile the connection is reset: the receiver reports the loss, the client is resumed
+			relay.cutClients()
+			relay.unfreeze()
+		} else {
+			srv.drop(srvConn[0])
+		}
 		select {
 		case <-discCh:
 		case <-time.After(4 * time.Second):
@@ -287,6 +318,12 @@ func runKeepaliveRe(in *c18In, attempt int) (Sx, *c18Obs) {
 	up := 12 * iv
 	if in.Variant == "staleclose" {
 		up = 4 * iv
+	}
+	if in.Variant == "closewait" && !closeEntered.IsZero() {
+		// until the first session's Close has sat out its wait and acted, and then some keep-alives more
+		if d := time.Until(closeEntered.Add(1100 * time.Millisecond)); d > 0 {
+			time.Sleep(d)
+		}
 	}
 	time.Sleep(up)
 	mu.Lock()
@@ -509,6 +546,9 @@ func reOracle(in *c18In, obs Sx) (string, string) {
 	// a Close entered for session 1 must not act on the session established meanwhile
 	if ro.LostLast {
 		how := "the connection of the new session was closed by the client itself"
+		if in.Variant == "closewait" {
+			how = "the Close that answered the failed keep-alive of session 1 was still waiting for the peer's closing tag when the client was resumed; when its wait was over it did something to the transport of session 2 (whose next keep-alive then found no connection or was not written on its connection)"
+		}
 		if in.Variant == "latefail" {
 			how = "the keep-alive of session 1 was past its poll of quit when the session ended; it ran after a refused re-dial, failed for want of a connection, and the loop answered that with transport.Close(), which acted on the connection of the session established meanwhile"
 		}
